@@ -283,6 +283,8 @@ pub fn key_pairs() -> Vec<(Item, Item)> {
         arr(vec![NULL]),
         arr(vec![t("x"), t("y"), u(3)]),
         arr(vec![u(1), u(2), u(1)]),
+        arr(vec![u(1), u(11)]),
+        arr(vec![u(1), NULL]),
         arr(vec![t("a"), u(1), t("a")]),
         arr(vec![u(2), u(1), u(3), u(2)]),
     ] {
@@ -431,6 +433,9 @@ pub fn msg_slots() -> Vec<Item> {
         arr(vec![r_bad.clone()]),
         arr(vec![r_nest2_bad.clone()]),
         arr(vec![r_nest3_bad.clone()]),
+        // the fault in the second element of a list
+        arr(vec![r_valid.clone(), r_bad.clone()]),
+        arr(vec![r_valid.clone(), r_nest2_bad.clone()]),
         Item::tag(18, arr(vec![])),
         // a bare COSE_Signature / COSE_recipient where an array of them belongs
         sig_valid(),
